@@ -163,6 +163,10 @@ class TermEval:
         self.classes: dict[str, ExprClass] = expression_classes(tree)
         self.apps: dict[Any, AppInfo] = {}
         self.inline_depth = inline_depth
+        # when True, an `if` on a non-constant test forks the evaluation: the function value becomes
+        # PW([(value on the true path, test), (value on the false path, else)]).  Only checks that
+        # judge every path separately may switch this on (a PW inside arithmetic is opaque).
+        self.fork = False
         self.symbol_assumptions: dict[str, dict] = {}
         # hooks: qualname -> callable(evaluator, args, kwargs) overriding inlining
         self.overrides: dict[str, Callable] = {}
@@ -230,6 +234,9 @@ class TermEval:
             return RF.const(v)
         if isinstance(v, Opaque) and isinstance(v.key, tuple) and v.key and v.key[0] in {"ref", "attr"}:
             return RF.atom(("sym", v.key))
+        if isinstance(v, PW):
+            # a Piecewise inside arithmetic: one opaque application over its branches
+            return self.app("Piecewise", [Tup([val, cond]) for val, cond in v.branches])
         raise ExtractionError(f"scalar expected, got {type(v).__name__} in `{unparse(node)[:60] if node is not None else ''}`")
 
     def _ev_BinOp(self, node, env, fn, depth):
@@ -806,7 +813,7 @@ class TermEval:
         return self.eval_body(fn.node.body, env, fn, depth)
 
     def eval_body(self, body: list[ast.stmt], env: dict, fn: FuncInfo, depth: int = 0):
-        for st in body:
+        for idx, st in enumerate(body):
             if isinstance(st, ast.Expr) and isinstance(st.value, ast.Constant):
                 continue  # docstring
             if isinstance(st, ast.Expr) and isinstance(st.value, ast.Call) and isinstance(st.value.func, ast.Attribute):
@@ -873,6 +880,22 @@ class TermEval:
                         except NoReturn:
                             pass
                     continue
+                if self.fork and not all(isinstance(s_, ast.Raise) or (isinstance(s_, ast.Assign) and _only_strings(s_)) for s_ in st.body):
+                    cond = self.ev(st.test, env, fn, depth)
+                    rest = body[idx + 1 :]
+                    branches = []
+                    for block, c in ((st.body, cond), (st.orelse, Opaque(("else-of", vkey(cond))))):
+                        try:
+                            val = self.eval_body([*block, *rest], dict(env), fn, depth)
+                        except RaisedError:
+                            continue
+                        if isinstance(val, PW):
+                            branches += [(v, Tup([c, c2])) for v, c2 in val.branches]
+                        else:
+                            branches.append((val, c))
+                    if not branches:
+                        raise NoReturn(f"{fn.qual}: every path raises")
+                    return branches[0][0] if len(branches) == 1 else PW(branches)
                 # tolerated: guard clauses that only raise (argument validation)
                 if all(isinstance(s, ast.Raise) or (isinstance(s, ast.Assign) and _only_strings(s)) for s in st.body) and not st.orelse:
                     continue
